@@ -142,12 +142,119 @@ class Ctx:
             open(pf, "w").write(text)
             self.sh(["coq_makefile", "-f", "_CoqProject", "-o", "Makefile"], cwd=self.coqdir, check=True)
 
+    def coq_closure(self, rel):
+        """Transitive closure of SV.* imports of a .v file (paths relative to coq/)."""
+        seen, todo = set(), [rel]
+        while todo:
+            r = todo.pop()
+            if r in seen or not os.path.exists(os.path.join(self.coqdir, r)):
+                continue
+            seen.add(r)
+            todo.extend(self.coq_deps(r))
+        return seen
+
+    def coq_deps(self, rel):
+        """Direct SV.* imports of one file."""
+        out = []
+        txt = strip_comments(open(os.path.join(self.coqdir, rel)).read())
+        for sent in re.split(r"\.(?:\s|$)", txt):
+            toks = sent.split()
+            if "Require" not in toks:
+                continue
+            from_sv = len(toks) >= 2 and toks[0] == "From" and toks[1] == "SV"
+            for name in toks[toks.index("Require") + 1:]:
+                if name in ("Import", "Export"):
+                    continue
+                if name.startswith("SV."):
+                    name = name[3:]
+                elif not from_sv:
+                    continue
+                cand = name.replace(".", "/") + ".v"
+                if os.path.exists(os.path.join(self.coqdir, cand)) and cand not in out:
+                    out.append(cand)
+        return out
+
     def coq_make(self, targets, timeout=2400):
-        self.coq_project()
-        lock = os.path.join(VERIF, "build", "coq.lock")
-        cmd = ["flock", lock, "make", "-j16"] + targets
-        p = self.sh(cmd, cwd=self.coqdir, timeout=timeout)
-        return p.returncode == 0, p.stdout + p.stderr
+        """Build the given .vo targets (paths relative to coq/) and their dependencies.
+
+        An empty target list means the whole development, built with
+        coq_makefile + make (what bin/setup does).  Individual targets are built
+        by a small dependency-driven scheduler that calls coqc (full .vo
+        compilation, never -vos) with one lock per file, so that several checks
+        can build disjoint parts of the tree at the same time.
+        """
+        if not targets:
+            self.coq_project()
+            lock = os.path.join(VERIF, "build", "coq.lock")
+            p = self.sh(["flock", lock, "make", "-j16"], cwd=self.coqdir, timeout=timeout)
+            return p.returncode == 0, p.stdout + p.stderr
+        import concurrent.futures as cf
+        import fcntl
+        files = set()
+        for t in targets:
+            files |= self.coq_closure(t[:-1] if t.endswith(".vo") else t)
+        deps = {f: self.coq_deps(f) for f in files}
+        log = []
+        rebuilt = set()
+        done = {}
+        deadline = time.time() + timeout
+
+        def vo(f):
+            return os.path.join(self.coqdir, f + "o")
+
+        def stale(f):
+            v = os.path.join(self.coqdir, f)
+            if not os.path.exists(vo(f)) or os.path.getmtime(vo(f)) < os.path.getmtime(v):
+                return True
+            for d in deps[f]:
+                if d in rebuilt or (os.path.exists(vo(d)) and os.path.getmtime(vo(d)) > os.path.getmtime(vo(f))):
+                    return True
+            return False
+
+        def build(f):
+            lockf = open(os.path.join(self.coqdir, f + ".lock"), "w")
+            try:
+                fcntl.flock(lockf, fcntl.LOCK_EX)
+                if not stale(f):
+                    return True, ""
+                left = max(30, deadline - time.time())
+                p = self.sh(["coqc", "-q", "-w", "-notation-overridden,-deprecated-hint-without-locality,-deprecated-instance-without-locality",
+                             "-Q", ".", "SV", f], cwd=self.coqdir, timeout=left)
+                rebuilt.add(f)
+                return p.returncode == 0, p.stdout + p.stderr
+            finally:
+                fcntl.flock(lockf, fcntl.LOCK_UN)
+                lockf.close()
+                try:
+                    os.remove(os.path.join(self.coqdir, f + ".lock"))
+                except OSError:
+                    pass
+
+        pending = set(files)
+        ok_all = True
+        with cf.ThreadPoolExecutor(max_workers=12) as ex:
+            running = {}
+            while (pending or running) and ok_all:
+                for f in sorted(pending):
+                    if all(d in done for d in deps[f]):
+                        running[ex.submit(build, f)] = f
+                        pending.discard(f)
+                if not running:
+                    log.append("dependency cycle among: %s" % sorted(pending))
+                    ok_all = False
+                    break
+                fin, _ = cf.wait(list(running), return_when=cf.FIRST_COMPLETED)
+                for fu in fin:
+                    f = running.pop(fu)
+                    ok, out = fu.result()
+                    if out.strip():
+                        log.append("== %s\n%s" % (f, out))
+                    done[f] = ok
+                    if not ok:
+                        ok_all = False
+            for fu in running:
+                fu.cancel()
+        return ok_all, "\n".join(log)
 
     def coq_run(self, name, text, timeout=900):
         """Compile a scratch .v file against the development; return stdout+stderr, rc."""
@@ -178,14 +285,14 @@ class Ctx:
         thms = re.findall(r"^\s*(?:Theorem|Corollary)\s+([A-Za-z0-9_']+)", src, re.M)
         self.theorems = thms
         self.obligations = len(thms)
-        # forbidden vernacular anywhere in the development
+        # forbidden vernacular anywhere in the files this property's theorems depend on
         bad = []
-        for root, dirs, fs in os.walk(self.coqdir):
-            for f in fs:
-                if f.endswith(".v"):
-                    txt = strip_comments(open(os.path.join(root, f)).read())
-                    for m in FORBIDDEN.finditer(txt):
-                        bad.append("%s: %s" % (os.path.relpath(os.path.join(root, f), self.coqdir), m.group(0)))
+        for rel in sorted(self.coq_closure(sub + "/Properties.v")):
+            txt = strip_comments(open(os.path.join(self.coqdir, rel)).read())
+            for m in FORBIDDEN.finditer(txt):
+                bad.append("%s: %s" % (rel, m.group(0)))
+            if re.search(r"^\s*(Variable|Variables|Hypothesis|Hypotheses|Context)\b", txt, re.M) and not re.search(r"^\s*Section\b", txt, re.M):
+                bad.append("%s: Variable/Hypothesis outside a Section" % rel)
         if bad:
             self.broken("forbidden-vernacular", "; ".join(bad[:10]))
             return False
@@ -235,11 +342,12 @@ class Ctx:
         self.log("BROKEN", name, detail[:400].replace("\n", " | "))
 
     def known(self):
+        """Entries of known_findings/<prop>.json (read-only at run time)."""
         try:
-            k = json.load(open(os.path.join(VERIF, "known_findings.json")))
+            k = json.load(open(os.path.join(VERIF, "known_findings", self.prop + ".json")))
         except OSError:
             return []
-        return [x for x in k.get("findings", []) if x.get("property") == self.prop]
+        return [x for x in k.get("findings", []) if x.get("property", self.prop) == self.prop]
 
     def finish(self, level, coverage, assumptions=None):
         known = self.known()
